@@ -20,9 +20,10 @@ partial def nodeOfJson (j : J) : Node :=
 end
 
 partial def instrOfJson : J → Instr
-  | .num n => .leaf n.toNat
+  | .num n => .leaf n.toNat allKinds
+  | .obj kvs => .leaf ((J.obj kvs).natD "id") (((J.obj kvs).arrD "mask").map fun x => (x.asNat?).getD 99)
   | .arr cs => .multi (cs.map instrOfJson)
-  | _ => .leaf 0
+  | _ => .leaf 0 allKinds
 
 def handle (j : J) : J :=
   match j.strD "op" with
